@@ -72,8 +72,8 @@ def run(ctx):
         ctx.check(okx, "instance-runs-only-with-xattr", "guarded_by(split)", ro.loc(i),
                   "with an xattr_filter the instance runs only for cgroups carrying the attribute",
                   "the instance can run for a cgroup without the xattr_filter attribute")
-        r = ro.text(ro.nodes[i]["recv"])
-        ctx.check("this->runnable_rulesets_[%s]" % KEY in r, "run-the-instance-of-this-cgroup", "provenance", ro.loc(i),
+        r = Expander(P, ro)(ro.nodes[i]["recv"])
+        ctx.check(("this->runnable_rulesets_[%s]" % KEY in r) or ("this->runnable_rulesets_[elem(" in r and ".absolutePath()]" in r), "run-the-instance-of-this-cgroup", "provenance", ro.loc(i),
                   "the instance looked up by this cgroup's absolute path is run", "runs " + r[:100])
     # past the filters the instance always runs, is marked visited
     for b in back_sources(L):
@@ -125,6 +125,8 @@ def run(ctx):
     # the filter test itself: presence of the attribute, whatever its value
     from .C03 import has_xattr_probe
     has_xattr_probe(ctx)
+    from .C05 import pause_field_writers
+    pause_field_writers(ctx)
     # ---- drop loop
     bad = erase_in_iteration(P, ro, ctx.cg)
     ctx.check(not bad, "erase-in-iteration:Ruleset::runOnce", "erase_in_iteration", ro.loc(bad[0][0]) if bad else ro.loc(),
